@@ -76,9 +76,15 @@ std::string prop_generate(Tape & t, int size) {
     { Call c; c.f = twr ? "twr_open" : "wr_open"; c.a = {0}; push(c); }
     int n = (int) t.range(3, 12 + size / 2);
     bool writer_open = true, rd_open[2] = {false, false};
+    std::vector<int> sigs_on_disk;   // signals defined in the file a reader on file 0 sees
+    bool wrote_samples = false;      // an fsr write for a defined signal was emitted since the writer was (re)opened
+    int data_sig = -1;               // a signal known to hold samples in the file a reader on file 0 sees
     for (int k = 0; k < n; ++k) {
         Call c;
-        size_t kind = t.weighted({4, 5, 8, 2, 3, 2, 2, 1, 2, 10, 1, 2, 1});
+        // call mix by state: with the writer closed, writer-side calls are no-ops in the executor, so reader / raw / copy calls
+        // (and occasionally re-opening the writer) take their place
+        size_t kind = writer_open ? t.weighted({4, 5, 8, 2, 3, 2, 2, 1, 2, 10, 1, 2, 1})
+                                  : t.weighted({0, 0, 0, 0, 0, 0, 0, 0, 2, 24, 2, 3, 0});
         switch (kind) {
             case 0: { c.f = "source"; int id = t.chance(3, 4) ? (int) t.range(1, 12) : gen_id(t, srcs); c.a = {id}; c.s1 = gen_name(t, "n"); c.s2 = gen_name(t, "v"); if (id > 0 && id < 256) srcs.push_back(id); break; }
             case 1: {
@@ -97,22 +103,52 @@ std::string prop_generate(Tape & t, int size) {
                 if (id > 0 && id < 256) sigs.push_back(id);
                 break;
             }
-            case 2: { c.f = t.chance(1, 8) ? "fsr_f32" : "fsr"; c.a = {gen_id(t, sigs), t.chance(3, 4) ? -1 : gen_i64(t), t.chance(9, 10) ? t.range(0, 400) : t.pick(std::vector<int64_t>{0, 1, 100000, 4294967295LL, 65536}), (int64_t) t.raw()}; break; }
+            case 2: { if (!sigs.empty()) wrote_samples = true;
+                      c.f = t.chance(1, 8) ? "fsr_f32" : "fsr"; c.a = {gen_id(t, sigs), t.chance(3, 4) ? -1 : gen_i64(t), t.chance(9, 10) ? t.range(0, 400) : t.pick(std::vector<int64_t>{0, 1, 100000, 4294967295LL, 65536}), (int64_t) t.raw()}; break; }
             case 3: { c.f = "omit"; c.a = {gen_id(t, sigs), t.range(0, 2)}; break; }
             case 4: { c.f = "anno"; c.a = {t.chance(1, 5) ? 0 : gen_id(t, sigs), t.chance(3, 4) ? k * 10 : gen_i64(t), t.range(-3, 3), t.chance(9, 10) ? t.range(0, 3) : t.range(0, 255), t.range(0, 255), t.chance(9, 10) ? t.range(1, 3) : t.range(0, 255)};
                       c.d.gen = true; c.d.seed = (uint64_t) t.raw() << 1; c.d.n = (uint32_t) t.range(0, 60); c.d.text = true; break; }
             case 5: { c.f = "utc"; c.a = {gen_id(t, sigs), t.chance(3, 4) ? k * 100 : gen_i64(t), gen_i64(t)}; break; }
             case 6: { c.f = "user"; c.a = {(int64_t) t.pick(std::vector<int64_t>{0, 5, 0xfff, 0x1000, 0xffff}), t.chance(9, 10) ? t.range(1, 3) : t.range(0, 255)}; c.d.gen = true; c.d.seed = (uint64_t) t.raw() << 1; c.d.n = (uint32_t) t.range(0, 200); c.d.text = true; break; }
             case 7: { c.f = "flush"; c.a = {}; break; }
-            case 8: { c.f = writer_open ? "wr_close" : (twr ? "twr_open" : "wr_open"); c.a = {0}; writer_open = !writer_open; if (writer_open) { sigs.clear(); srcs = {1}; } break; }
+            case 8: {
+                c.f = writer_open ? "wr_close" : (twr ? "twr_open" : "wr_open"); c.a = {0};
+                if (writer_open) { writer_open = false; sigs_on_disk = sigs; }     // file 0 is complete: readers see the signals defined so far
+                else {
+                    // re-opening the writer truncates file 0 and the executor closes the readers on it: keep the bookkeeping in step
+                    writer_open = true; sigs.clear(); srcs = {1}; sigs_on_disk.clear(); rd_open[0] = rd_open[1] = false; wrote_samples = false; data_sig = -1;
+                }
+                break;
+            }
             case 9: {   // reader calls (open a reader on file 0 if none)
                 int r = (int) t.below(2);
-                if (!rd_open[r]) { c.f = "rd_open"; c.a = {r, t.chance(9, 10) ? 0 : t.range(1, 3)}; rd_open[r] = true; break; }
+                if (!rd_open[r]) {
+                    int64_t file = t.chance(9, 10) ? 0 : t.range(1, 3);
+                    if (file == 0 && writer_open) {
+                        // a reader on the file that is being written is not a defined use (the executor skips it): finish the file first,
+                        // so that the reader calls that follow operate on a complete file with the signals defined so far.
+                        // Make sure that file holds at least one FSR signal with samples (constructed, not hoped for): reader-side
+                        // misuse - windows at and beyond the end, huge starts/increments, wrong-type reads - needs real data to act on.
+                        if (!wrote_samples) {
+                            int id = (int) t.range(1, 12);
+                            const DType & dt = DTYPES[t.below(N_DTYPES)];
+                            Call d; d.f = "signal"; d.a = {id, 1, 0, (int64_t) dt.code, 1000, 10, 10, 10, 10, 0, 0}; d.s1 = gen_name(t, "s"); d.s2 = gen_name(t, "u"); push(d);
+                            sigs.push_back(id); data_sig = id;
+                            Call w; w.f = "fsr"; w.a = {id, -1, t.pick(std::vector<int64_t>{1, 9, 10, 11, 95, 100, 101, 250, 1000, 1005, 3333}), (int64_t) t.raw()}; push(w);
+                            wrote_samples = true;
+                        }
+                        Call cl; cl.f = "wr_close"; cl.a = {0}; push(cl);
+                        writer_open = false; sigs_on_disk = sigs;
+                    }
+                    c.f = "rd_open"; c.a = {r, file}; rd_open[r] = true; break;
+                }
                 static const std::vector<std::string> F = {"rd_fsr", "rd_fsr", "rd_stats", "rd_stats", "rd_len", "rd_annos", "rd_utc", "rd_user", "rd_signal", "rd_signals", "rd_s2t", "rd_t2s", "rd_fsr_f32", "rd_close"};
                 c.f = F[t.below((uint32_t) F.size())];
-                int id = gen_id(t, sigs);
-                if (c.f == "rd_fsr" || c.f == "rd_fsr_f32") c.a = {r, id, t.chance(3, 4) ? t.range(0, 300) : gen_i64(t), t.chance(3, 4) ? t.range(0, 300) : gen_i64(t)};
-                else if (c.f == "rd_stats") c.a = {r, id, t.chance(3, 4) ? t.range(0, 300) : gen_i64(t), t.chance(3, 4) ? t.range(1, 200) : gen_i64(t), t.chance(3, 4) ? t.range(1, 30) : gen_i64(t)};
+                int id = (data_sig >= 0 && t.chance(1, 2)) ? data_sig : gen_id(t, sigs_on_disk);
+                // last argument: 0 = window as given; 1..4 = the executor moves the window to an edge of the signal once its length is known
+                // (1: ends exactly at the last sample, 2: ends one sample behind it, 3: starts at length, 4: longer than the signal)
+                if (c.f == "rd_fsr" || c.f == "rd_fsr_f32") c.a = {r, id, t.chance(3, 4) ? t.range(0, 300) : gen_i64(t), t.chance(3, 4) ? t.range(0, 300) : gen_i64(t), t.chance(1, 3) ? t.range(1, 4) : 0};
+                else if (c.f == "rd_stats") c.a = {r, id, t.chance(3, 4) ? t.range(0, 300) : gen_i64(t), t.chance(3, 4) ? t.range(1, 200) : gen_i64(t), t.chance(3, 4) ? t.range(1, 30) : gen_i64(t), t.chance(1, 3) ? t.range(1, 4) : 0};
                 else if (c.f == "rd_close") { c.a = {r}; rd_open[r] = false; }
                 else c.a = {r, id, gen_i64(t), t.range(0, 3)};
                 break;
@@ -136,6 +172,8 @@ std::string prop_generate(Tape & t, int size) {
 namespace {
 
 struct Ctx {
+    long edge_stats[5] = {0, 0, 0, 0, 0};
+    long rd_calls = 0, rd_calls_no_reader = 0, rd_calls_fsr_with_data = 0, edge_windows = 0, rd_open_skipped_writer_open = 0;
     Writer w;
     bool is_twr = false;
     std::map<int, const DType *> sig_dt;     // defined FSR signals of the current writer
@@ -221,10 +259,12 @@ void exec_call(Ctx & x, const Call & c) {
             if (f == "fsr_f32") rc = x.w.twr ? jls_twr_fsr_f32(x.w.twr, (uint16_t) A(0), sid, (const float *) hb.p, (uint32_t) n) : jls_wr_fsr_f32(x.w.wr, (uint16_t) A(0), sid, (const float *) hb.p, (uint32_t) n);
             else rc = x.w.twr ? jls_twr_fsr(x.w.twr, (uint16_t) A(0), sid, hb.p, (uint32_t) n) : jls_wr_fsr(x.w.wr, (uint16_t) A(0), sid, hb.p, (uint32_t) n);
             if (!rc && defined && n > 0) { ++x.data_ok; if (sid + n > x.next_id[id]) x.next_id[id] = sid + n; }
-            if (x.w.twr) must_reject = false;   // the threaded writer queues: errors surface in the writer thread (C06 judges what reaches the file)
+            // the threaded writer knows the sample size of every defined FSR signal: an undefined one, or the f32 call on a signal
+            // whose samples are not 32 bits wide, must be reported by the call itself (the writer thread has no way to report it)
+            if (x.w.twr) must_reject = (!defined && n > 0) || (f == "fsr_f32" && defined && dt->bits != 32 && n > 0);
         } else if (f == "omit") {
             int id = (int) (uint16_t) A(0);
-            must_reject = !x.sig_dt.count(id) && !x.w.twr;
+            must_reject = !x.sig_dt.count(id);
             rc = x.w.twr ? jls_twr_fsr_omit_data(x.w.twr, (uint16_t) A(0), (uint32_t) A(1)) : jls_wr_fsr_omit_data(x.w.wr, (uint16_t) A(0), (uint32_t) A(1));
         } else if (f == "anno" || f == "user") {
             std::vector<uint8_t> b = c.d.bytes();
@@ -236,19 +276,19 @@ void exec_call(Ctx & x, const Call & c) {
             uint32_t dsz = (uint32_t) b.size();
             if (f == "anno") {
                 int id = (int) (uint16_t) A(0);
-                must_reject = !x.w.twr && ((id != 0 && !x.sig_type.count(id)) || (stor & 0xff) < 1 || (stor & 0xff) > 3);
+                must_reject = (id != 0 && !x.sig_type.count(id)) || (stor & 0xff) < 1 || (stor & 0xff) > 3;
                 float y = (float) A(2);
                 rc = x.w.twr ? jls_twr_annotation(x.w.twr, (uint16_t) A(0), A(1), y, (enum jls_annotation_type_e) (A(3) & 0xff), (uint8_t) A(4), (enum jls_storage_type_e) (stor & 0xff), hb.p, str ? 0 : dsz)
                              : jls_wr_annotation(x.w.wr, (uint16_t) A(0), A(1), y, (enum jls_annotation_type_e) (A(3) & 0xff), (uint8_t) A(4), (enum jls_storage_type_e) (stor & 0xff), hb.p, str ? 0 : dsz);
             } else {
-                must_reject = !x.w.twr && (stor & 0xff) > 3;
+                must_reject = (stor & 0xff) > 3;
                 if ((stor & 0xff) == 0) may_reject = true;
                 rc = x.w.twr ? jls_twr_user_data(x.w.twr, (uint16_t) A(0), (enum jls_storage_type_e) (stor & 0xff), hb.p, str ? 0 : dsz) : jls_wr_user_data(x.w.wr, (uint16_t) A(0), (enum jls_storage_type_e) (stor & 0xff), hb.p, str ? 0 : dsz);
             }
             if (!rc) ++x.data_ok;
         } else if (f == "utc") {
             int id = (int) (uint16_t) A(0);
-            must_reject = !x.w.twr && !x.sig_dt.count(id);
+            must_reject = !x.sig_dt.count(id);
             rc = x.w.twr ? jls_twr_utc(x.w.twr, (uint16_t) A(0), A(1), A(2)) : jls_wr_utc(x.w.wr, (uint16_t) A(0), A(1), A(2));
         } else { rc = x.w.twr ? jls_twr_flush(x.w.twr) : jls_wr_flush(x.w.wr); may_reject = false; if (rc) x.fail("flush", strf("flush returned %d", rc)); }
         (void) may_reject;
@@ -263,13 +303,14 @@ void exec_call(Ctx & x, const Call & c) {
     } else if (f == "rd_open") {
         int r = (int) A(0) & 1;
         x.rd[r].close();
-        if (x.w.is_open() && A(1) == 0) { vfs::io_budget(0); return; }   // opening the file that is being written would repair it underneath the writer: not a defined use
+        if (x.w.is_open() && A(1) == 0) { ++x.rd_open_skipped_writer_open; vfs::io_budget(0); return; }   // opening the file that is being written would repair it underneath the writer: not a defined use
         rc = x.rd[r].open(FILES[A(1) & 3]);
     } else if (f.rfind("rd_", 0) == 0) {
         int r = (int) A(0) & 1;
         struct jls_rd_s * rd = x.rd[r].rd;
         if (f == "rd_close") { x.rd[r].close(); vfs::io_budget(0); return; }
-        if (!rd) { vfs::io_budget(0); return; }
+        ++x.rd_calls;
+        if (!rd) { ++x.rd_calls_no_reader; vfs::io_budget(0); return; }
         uint16_t id = (uint16_t) A(1);
         struct jls_signal_def_s sd = {};
         bool defined = (A(1) >= 0 && A(1) < 65536) && jls_rd_signal(rd, id, &sd) == 0;
@@ -278,11 +319,22 @@ void exec_call(Ctx & x, const Call & c) {
         bool fsr = defined && sd.signal_type == JLS_SIGNAL_TYPE_FSR && dt;
         int64_t len = 0;
         if (fsr && jls_rd_fsr_length(rd, id, &len)) len = 0;
+        if (fsr && len > 0) ++x.rd_calls_fsr_with_data;
         if (f == "rd_len") { int64_t l = -1; rc = jls_rd_fsr_length(rd, id, &l); if (!fsr && rc == 0) x.fail("accepted_invalid", strf("jls_rd_fsr_length(%u) succeeded for an undefined or non-FSR signal", id)); }
         else if (f == "rd_signal") { rc = jls_rd_signal(rd, id, &sd); }
         else if (f == "rd_signals") { struct jls_signal_def_s * p = nullptr; uint16_t n = 0; rc = jls_rd_signals(rd, &p, &n); struct jls_source_def_s * q = nullptr; jls_rd_sources(rd, &q, &n); }
         else if (f == "rd_fsr" || f == "rd_fsr_f32") {
             int64_t start = A(2), n = A(3);
+            if (fsr && len > 0 && A(4) >= 1 && A(4) <= 4) {
+                ++x.edge_windows;
+                if (n < 1 || n > 100000) n = 1 + (n & 63);
+                switch ((int) A(4)) {
+                    case 1: if (n > len) n = len; start = len - n; break;
+                    case 2: if (n > len) n = len; start = len - n + 1; break;
+                    case 3: start = len; break;
+                    default: n = len + 1; start = 0; break;
+                }
+            }
             bool inside = fsr && start >= 0 && n > 0 && n <= len && start <= len - n;
             bool f32bad = (f == "rd_fsr_f32") && fsr && strcmp(dt->name, "f32");
             size_t sz = (inside && !f32bad) ? rd_buf_size(*dt, n) : 1;
@@ -294,6 +346,17 @@ void exec_call(Ctx & x, const Call & c) {
             if (!rc && inside) ++x.data_ok;
         } else if (f == "rd_stats") {
             int64_t start = A(2), incr = A(3), cnt = A(4);
+            if (fsr && len > 0 && A(5) >= 1 && A(5) <= 4) {
+                ++x.edge_windows; ++x.edge_stats[(int) A(5)];
+                if (incr < 1 || incr > len) incr = 1 + (incr & 15) % len;
+                if (cnt < 1 || cnt > len / incr) cnt = 1 + (cnt & 1023) % (len / incr);
+                switch ((int) A(5)) {
+                    case 1: start = len - incr * cnt; break;           // the last window ends exactly at the last sample
+                    case 2: start = len - incr * cnt + 1; break;       // ... one sample behind it
+                    case 3: start = len; break;
+                    default: start = 0; incr = len + 1; cnt = 1; break;
+                }
+            }
             bool inside = fsr && start >= 0 && incr > 0 && cnt > 0 && cnt <= (1 << 20) && incr <= len && cnt <= len / incr && start <= len - incr * cnt;
             size_t sz = inside ? (size_t) cnt * 4 * sizeof(double) : 1;
             HeapBuf hb(sz);
@@ -348,6 +411,13 @@ CaseOutcome prop_execute(const std::string & case_json) {
     if (x.err.empty() && vfs::open_fds() != 0) x.fail("fd_leak", strf("%d backend descriptors still open after every instance was closed", vfs::open_fds()));
     if (!x.err.empty()) oc.fail(x.clause, x.err);
     oc.nontrivial = x.rejected > 0 && x.data_ok > 0;
+    oc.counters.push_back({"reader_calls", x.rd_calls});
+    oc.counters.push_back({"reader_calls_without_an_open_reader", x.rd_calls_no_reader});
+    oc.counters.push_back({"reader_calls_on_fsr_signal_with_data", x.rd_calls_fsr_with_data});
+    oc.counters.push_back({"windows_moved_to_a_signal_edge", x.edge_windows});
+    oc.counters.push_back({"statistics_windows_ending_exactly_at_the_last_sample", x.edge_stats[1]});
+    oc.counters.push_back({"statistics_windows_ending_one_sample_behind_the_signal", x.edge_stats[2]});
+    oc.counters.push_back({"rd_open_skipped_because_writer_open", x.rd_open_skipped_writer_open});
     vfs::reset();
     return oc;
 }
